@@ -219,6 +219,36 @@ Section Driver.
     | _, _, _ => acc
     end.
 
+  (* IndexView.DropOneWithKey: Begin, the same handle checks as DropOne, a
+     lookup of the index whose key specification compares equal to the given
+     one in the transaction's catalog (= the committed catalog: the call is
+     never routed to a session), then DropIndex by that name; no such index is
+     an error.  So a drop by key IS a drop by name: the call below, to which
+     every theorem about `step` and `run` applies.  When no index has the key
+     the name is one that no index of the namespace has (longer than each). *)
+  Definition resolve_index_key (c : catalog) (h : handle) (key : doc) : option string :=
+    match ns_get (cat_ns c) h with
+    | Some n =>
+        match find (fun ni => match compare (VDoc key) (VDoc (cf_key (ix_config (snd ni)))) with
+                              | Eq => true | _ => false end) (c_indexes n) with
+        | Some ni => Some (fst ni)
+        | None => None
+        end
+    | None => None
+    end.
+
+  Definition fresh_index_name (c : catalog) (h : handle) : string :=
+    match ns_get (cat_ns c) h with
+    | Some n => (String.concat "" (map fst (c_indexes n)) ++ "!")%string
+    | None => "!"
+    end.
+
+  Definition drop_by_key_call (ds : dstate) (sid : Z) (h : handle) (key : doc) : call :=
+    CDropIndex sid h (match resolve_index_key (ds_cat ds) h key with
+                      | Some name => name
+                      | None => fresh_index_name (ds_cat ds) h
+                      end).
+
   Definition step (ds : dstate) (c : call) : dstate * reply :=
     match c with
     | CInsertOne sid h d =>
